@@ -184,6 +184,20 @@ class NpShim(types.ModuleType):
     def __getattr__(self, name):
         return getattr(np, name)
 
+    # scalar constructors: np.int64(x) must hand a proxy through (numpy's own would call int() on it); as a dtype
+    # argument the subclass is indistinguishable from the real type (np.dtype(I64) == int64)
+    class int64(np.int64):
+        def __new__(cls, v=0):
+            return v if core.is_sym(v) else np.int64(v)
+
+    class int32(np.int32):
+        def __new__(cls, v=0):
+            return v if core.is_sym(v) else np.int32(v)
+
+    class int16(np.int16):
+        def __new__(cls, v=0):
+            return v if core.is_sym(v) else np.int16(v)
+
     # constructors --------------------------------------------------------------
     @staticmethod
     def _dt(dtype):
